@@ -377,10 +377,15 @@ func (e *enc) loopEnv(h *ssa.BasicBlock, phiOverride map[*ssa.Phi]Val) *Env {
 	vars := map[string]Val{}
 	for k, v := range e.params {
 		vars[k] = v
+		vars[k+"$0"] = v // entry value of the parameter (the plain name may be shadowed by a loop-carried variable)
 	}
+	lpos := e.loopPos(h)
 	for name, vs := range e.dbg {
-		// last recorded value whose block dominates h
+		// last recorded value whose block dominates h and whose declared variable is in scope at the loop
 		for _, v := range vs {
+			if !e.inScope(v, name, lpos) {
+				continue
+			}
 			if in, ok := v.(ssa.Instruction); ok {
 				if in.Block() != nil && in.Block().Dominates(h) && in.Block() != h {
 					if val, ok := e.vals[v]; ok {
@@ -507,6 +512,13 @@ func (e *enc) loopHead(h *ssa.BasicBlock, li *loopInfo, entryPhi func(*ssa.Phi) 
 		}
 		sort.Strings(names)
 		front := e.get("frontier")
+		framed := e.framedVars(names)
+		// the function's frame (modifies clause) is an automatic loop invariant: init
+		for _, n := range framed {
+			if pre := e.get(n); pre != e.getIn(e.initSt, n) {
+				e.oblige("invariant-init", fmt.Sprintf("loop#%d frame %s", li.ord, n), e.fc.frameProps(), "modifies clause holds at loop entry: "+n, e.frameGoal(n, pre), token.NoPos)
+			}
+		}
 		for _, n := range names {
 			pre := e.get(n)
 			post := e.havocQuiet(n)
@@ -515,6 +527,10 @@ func (e *enc) loopHead(h *ssa.BasicBlock, li *loopInfo, entryPhi func(*ssa.Phi) 
 				e.body = append(e.body, "(assert true)")
 			}
 		}
+		for _, n := range framed {
+			e.assumeHere(e.frameGoal(n, e.get(n)))
+		}
+		li.framed = framed
 	}
 	if _, ok := e.sorts["frontier"]; ok && (e.discover || e.loopWrites[h]["frontier"] || e.loopWrites[h]["*"]) {
 		// frontier only grows
@@ -582,6 +598,9 @@ func (e *enc) backEdge(from, h *ssa.BasicBlock) {
 	for i, g := range e.autoInvariants(h, func(p *ssa.Phi) string { return over[p].T }) {
 		e.oblige("invariant-preserve", fmt.Sprintf("loop#%d auto%d", li.ord, i), nil, "counter lower bound", g, token.NoPos)
 	}
+	for _, n := range li.framed {
+		e.oblige("invariant-preserve", fmt.Sprintf("loop#%d frame %s", li.ord, n), e.fc.frameProps(), "modifies clause preserved by the loop body: "+n, e.frameGoal(n, e.get(n)), token.NoPos)
+	}
 	if dec != nil && li.measure != "" {
 		if m, ok := e.trVal(dec.E, env, "decreases"); ok {
 			e.oblige("decreases", fmt.Sprintf("loop#%d", li.ord), dec.Props, dec.Src, and("(< "+m.T+" "+li.measure+")", "(>= "+li.measure+" 0)"), token.NoPos)
@@ -614,15 +633,27 @@ func (e *enc) instrs(b *ssa.BasicBlock, phiFn func(*ssa.Phi) Val) {
 // instructions
 
 func (e *enc) instr(in ssa.Instruction) {
+	if p := in.Pos(); p.IsValid() {
+		e.curPos = p
+	}
 	switch x := in.(type) {
 	case *ssa.DebugRef:
 		if id, ok := x.Expr.(interface{ String() string }); ok {
 			_ = id
 		}
-		if obj := x.Object(); obj != nil && !x.IsAddr {
-			e.dbg[obj.Name()] = append(e.dbg[obj.Name()], x.X)
-		} else if obj != nil && x.IsAddr {
-			e.dbg["&"+obj.Name()] = append(e.dbg["&"+obj.Name()], x.X)
+		if obj := x.Object(); obj != nil {
+			key := obj.Name()
+			if x.IsAddr {
+				key = "&" + key
+			}
+			e.dbg[key] = append(e.dbg[key], x.X)
+			if e.dbgObj == nil {
+				e.dbgObj = map[ssa.Value]map[string]types.Object{}
+			}
+			if e.dbgObj[x.X] == nil {
+				e.dbgObj[x.X] = map[string]types.Object{}
+			}
+			e.dbgObj[x.X][key] = obj
 		}
 	case *ssa.If, *ssa.Jump:
 	case *ssa.Return:
@@ -973,6 +1004,13 @@ func (e *enc) binop(x *ssa.BinOp) {
 			res("(+ "+a.T+" "+b.T+")", "Real")
 			return
 		}
+		// the canonical `range` index increment cannot wrap: -1 <= idx < len <= 2^56
+		if phi, ok := x.X.(*ssa.Phi); ok && phi.Comment == "rangeindex" {
+			if c, ok := x.Y.(*ssa.Const); ok && c.Value != nil && c.Int64() == 1 {
+				res("(+ "+a.T+" 1)", "Int")
+				return
+			}
+		}
 		res(wrapTo("(+ "+a.T+" "+b.T+")", t), "Int")
 	case token.SUB:
 		if a.S == "Real" {
@@ -1064,9 +1102,10 @@ func (e *enc) indexAddr(x *ssa.IndexAddr) {
 	idx := e.val(x.Index)
 	switch t := x.X.Type().Underlying().(type) {
 	case *types.Slice:
+		idx.T = e.atom("ix."+x.Name(), "Int", idx.T)
 		e.safety("index", and("(>= "+idx.T+" 0)", "(< "+idx.T+" (s-len "+base.T+"))"), x.Pos())
 		es := e.te.SortOf(t.Elem())
-		a := &Addr{Root: "elem", Mem: e.memName(es), Base: "(s-ptr " + base.T + ")", Idx: "(+ (s-off " + base.T + ") " + idx.T + ")", RT: t.Elem()}
+		a := &Addr{Root: "elem", Mem: e.memName(es), Base: "(s-ptr " + base.T + ")", Idx: "(sidx (s-off " + base.T + ") " + idx.T + ")", RT: t.Elem()}
 		e.bind(x, Val{T: "0", S: "Int", GT: x.Type(), A: a})
 	case *types.Pointer:
 		arr := t.Elem().Underlying().(*types.Array)
@@ -1473,4 +1512,32 @@ func (e *enc) rangeByOrdinal(k int) *ssa.Range {
 		return nil
 	}
 	return rs[k]
+}
+
+// inScope: is the source variable `name` that value v was recorded for visible at position pos?
+func (e *enc) inScope(v ssa.Value, name string, pos token.Pos) bool {
+	obj := e.dbgObj[v][name]
+	if obj == nil || obj.Parent() == nil || !pos.IsValid() {
+		return true
+	}
+	return obj.Parent().Contains(pos)
+}
+
+// framedVars: the state variables among names that the function's modifies clause does not release entirely.
+func (e *enc) framedVars(names []string) []string {
+	if e.discover || e.fc == nil || !e.fc.HasMod || e.fc.ModAll {
+		return nil
+	}
+	allowed, _ := e.frameSpec()
+	if allowed["*"] {
+		return nil
+	}
+	var out []string
+	for _, n := range names {
+		if allowed[n] || frameExempt(n) {
+			continue
+		}
+		out = append(out, n)
+	}
+	return out
 }
